@@ -11,7 +11,7 @@ R19.3 decoder gain non-interference: decode_gain is read only by its SET/GET
 R19.4 the soft_clip flag of opus_decode_native controls only the clipper call
       and the reset of softclip_mem.
 """
-from .. import sx, cfg as cfgm, guards, templates as T, absint
+from .. import sx, cfg as cfgm, guards, templates as T, absint, roles
 from ..guards import I
 from ..compdb import AnalysisBroken
 
@@ -154,7 +154,12 @@ def r19_3(rep, prog):
         for n in f.all_nodes():
             if n[0] == 'field' and n[2] == 'OpusDecoder' and n[3] == 'decode_gain':
                 readers.setdefault(f.name, []).append(n)
-    allowed = {'opus_decoder_ctl', 'opus_decode_frame'}
+    fdecs = roles.frame_decoders(prog)
+    gainf = roles.holding(fdecs, lambda n: n[0] == 'field' and n[2] == 'OpusDecoder' and n[3] == 'decode_gain')
+    if len(gainf) != 1:
+        rep.violated('R19.3', '%s:exactly one per-frame decoder function applies the gain' % prog.config, None, 'functions reading decode_gain: %s' % [g.name for g in gainf], key='gain-functions')
+        return
+    allowed = {'opus_decoder_ctl', gainf[0].name}
     extra = set(readers) - allowed
     if extra:
         for name in sorted(extra):
@@ -163,14 +168,14 @@ def r19_3(rep, prog):
                          'decode_gain may only be used by its ctl arms and the PCM scaling in opus_decode_frame', key='reader:' + name)
     else:
         rep.holds('R19.3', '%s:decode_gain is read only by %s' % (prog.config, sorted(readers)), None, None)
-    f = prog.fn('opus_decode_frame')
+    f = gainf[0]
     rep.functions.add(f.name)
     cf = cfgm.CFG(f)
     ppcm = f.param_index('pcm')
     gblocks = [b for b in cf.blocks if cf.cond(b) is not None and any(m[0] == 'field' and m[3] == 'decode_gain' for m in sx.walk(cf.cond(b)))]
     outer = [b for b in gblocks if all(cf.dominates(b, o) for o in gblocks)]
     if len(outer) != 1:
-        rep.unresolved('R19.3', 'expected one outermost branch on decode_gain in opus_decode_frame, found %d' % len(gblocks))
+        rep.unresolved('R19.3', 'expected one outermost branch on decode_gain in %s, found %d' % (f.name, len(gblocks)))
         return
     g = outer[0]
     region = T.controlled_region(cf, g, True)
@@ -336,9 +341,19 @@ def r19_67(rep, prog):
     R19.7 no audio that already went through the gain (a recursive
     opus_decode_frame into a scratch buffer) is mixed into pcm before the gain
     loop runs again."""
-    f = prog.fn('opus_decode_frame')
+    fdecs = roles.frame_decoders(prog)
+    gainf = roles.holding(fdecs, lambda n: n[0] == 'field' and n[2] == 'OpusDecoder' and n[3] == 'decode_gain')
+    if len(gainf) != 1:
+        rep.unresolved('R19.6', 'gain-applying frame decoder not unique: %s' % [g.name for g in gainf])
+        return
+    f = gainf[0]
     cf = cfgm.CFG(f)
     ppcm, pfs = f.param_index('pcm'), f.param_index('frame_size')
+    # locals that hold the sample count returned by a frame decoder
+    counts = set()
+    for n_ in f.all_nodes():
+        if n_[0] == 'assign' and sx.kind(n_[1]) == 'local' and sx.kind(sx.strip(n_[2])) == 'call' and sx.callee_name(sx.strip(n_[2])) in {g.name for g in fdecs}:
+            counts.add(('local', n_[1][2]))
     gblocks = [b for b in cf.blocks if cf.cond(b) is not None and any(m[0] == 'field' and m[3] == 'decode_gain' for m in sx.walk(cf.cond(b)))]
     outer = [b for b in gblocks if all(cf.dominates(b, o) for o in gblocks)]
     if len(outer) != 1:
@@ -354,7 +369,7 @@ def r19_67(rep, prog):
             if len(at) == 1 and at[0][0] == '<':
                 bounds.append((b, at[0][2], c))
     where = '%s:%s' % (f.file, cf.blocks[g]['term'].get('l'))
-    inst = '%s:gain loop covers frame_size * st->channels interleaved samples' % prog.config
+    inst = '%s:gain loop covers (decoded samples) * st->channels interleaved values' % prog.config
     if len(bounds) != 1:
         rep.unresolved('R19.6', 'expected one loop in the gain region, found %d' % len(bounds), where)
     else:
@@ -368,40 +383,59 @@ def r19_67(rep, prog):
                     flds(x, out)
             return out
         fl = flds(bk, set())
-        uses_fs = any(True for _ in [0]) and ('param', pfs) in _subkeys(bk)
+        uses_fs = ('param', pfs) in _subkeys(bk) or bool(counts & _subkeys(bk))
         if fl == {'channels'} and uses_fs and bk[0] == 'bin' and bk[1] == '*':
             rep.holds('R19.6', inst, where, 'bound `%s`' % sx.show(bounds[0][2]))
         else:
-            rep.violated('R19.6', inst, where, 'bound `%s` is not frame_size * st->channels (fields used: %s): part of the interleaved frame is left unscaled or the loop overruns' % (sx.show(bounds[0][2]), sorted(fl)), key='gain-bound')
+            rep.violated('R19.6', inst, where, 'bound `%s` is not <frame size or returned sample count> * st->channels (fields used: %s): part of the interleaved frame is left unscaled or the loop overruns' % (sx.show(bounds[0][2]), sorted(fl)), key='gain-bound')
     # R19.7
     nrec = 0
-    for b, i, c in T.calls_to(cf, f.name):
+    sites = []
+    for h in fdecs:
+        ch = cf if h is f else cfgm.CFG(h)
+        # h reaches the gain (it is the gain function, or is called by it and so its output is gained afterwards)
+        for b, i, c in T.calls_to(ch, f.name):
+            sites.append((h, ch, b, i, c))
+    for h, ch, b, i, c in sites:
+        hp = h.param_index('pcm')
         out = sx.strip(c[2][3])
         r, path = sx.lvalue_root(out)
-        if sx.kind(r) == 'param' and r[1] == ppcm:
-            continue            # decodes in place into the caller's buffer and returns: gained once by the inner call
+        if sx.kind(r) == 'param' and r[1] == hp:
+            continue            # decodes in place into the caller's buffer: gained once, by the callee
         nrec += 1
+        where2 = '%s:%s' % (h.file, sx.line(c))
         if sx.kind(r) != 'local':
-            rep.unresolved('R19.7', 'recursive call writes to `%s`' % sx.show(out), '%s:%s' % (f.file, sx.line(c)))
+            rep.unresolved('R19.7', 'call into the gain-applying frame decoder writes to `%s`' % sx.show(out), where2)
             continue
         lid = r[2]
-        # does the scratch buffer flow into pcm before the gain region?
+        # does the scratch buffer flow into the caller's pcm, which is (later) scaled by the gain region?
+        before_gain = (lambda blk: g in ch.reachable_from(blk)) if h is f else (lambda blk: True)
         mixed = []
-        for b2, i2, n in cf.find(lambda n: n[0] == 'call' and any(sx.kind(x) == 'local' and x[2] == lid for a in n[2] for x in sx.walk(a))
-                                 and any(sx.kind(sx.lvalue_root(sx.strip(a))[0]) == 'param' and sx.lvalue_root(sx.strip(a))[0][1] == ppcm for a in n[2])):
-            if sx.callee_name(n) != f.name and g in cf.reachable_from(b2):
+        for b2, i2, n in ch.find(lambda n: n[0] == 'call' and any(sx.kind(x) == 'local' and x[2] == lid for a in n[2] for x in sx.walk(a))
+                                 and any(sx.kind(sx.lvalue_root(sx.strip(a))[0]) == 'param' and sx.lvalue_root(sx.strip(a))[0][1] == hp for a in n[2])):
+            if sx.callee_name(n) not in {x.name for x in fdecs} and before_gain(b2):
                 mixed.append(n)
-        for b2, i2, n in cf.find(lambda n: n[0] == 'assign' and sx.kind(sx.lvalue_root(n[1])[0]) == 'param' and sx.lvalue_root(n[1])[0][1] == ppcm
+        for b2, i2, n in ch.find(lambda n: n[0] == 'assign' and sx.kind(sx.lvalue_root(n[1])[0]) == 'param' and sx.lvalue_root(n[1])[0][1] == hp
                                  and any(sx.kind(x) == 'local' and x[2] == lid for x in sx.walk(n[2]))):
-            if g in cf.reachable_from(b2):
+            if before_gain(b2):
                 mixed.append(n)
-        inst = '%s:audio decoded by the recursive call into %s is not gained twice' % (prog.config, r[1])
-        where2 = '%s:%s' % (f.file, sx.line(c))
+        inst = '%s:audio decoded by %s into %s is not gained twice' % (prog.config, f.name, r[1])
         if mixed:
-            rep.violated('R19.7', inst, where2, 'the recursive opus_decode_frame already applies decode_gain to %s; it is then mixed into pcm by `%s` and the gain loop scales it again (transition samples come out at gain^2)' %
-                         (r[1], sx.show(mixed[0])[:60]), key='opus_decode_frame:%s:double-gain' % r[1])
+            rep.violated('R19.7', inst, where2, 'the call to %s already applies decode_gain to %s; it is then mixed into pcm by `%s` and scaled by the gain loop again (transition samples come out at gain^2)' %
+                         (f.name, r[1], sx.show(mixed[0])[:60]), key='opus_decode_frame:%s:double-gain' % r[1])
         else:
             rep.holds('R19.7', inst, where2, 'buffer does not reach pcm before the gain loop')
+    # scratch decodes made through a gain-free frame decoder are scaled once, with the frame they are mixed into
+    for h in fdecs:
+        if h is f:
+            continue
+        for c in h.calls():
+            if sx.callee_name(c) == h.name:
+                out = sx.strip(c[2][3])
+                r, path = sx.lvalue_root(out)
+                if sx.kind(r) == 'local':
+                    nrec += 1
+                    rep.holds('R19.7', '%s:%s conceals into %s without the gain (applied once by %s)' % (prog.config, h.name, r[1], f.name), '%s:%s' % (h.file, sx.line(c)), None)
     if not nrec:
         rep.holds('R19.7', '%s:no recursive decode into a scratch buffer' % prog.config, f.where(), None)
 
